@@ -1422,8 +1422,22 @@ def main():
         "correspondence is sampled: agreement is established on the cases run",
     ]
     run.cov["trusted_base"] += ["harness/c08.py, harness/tzdays.py (generators, adapters, per-local-day canonicalisation, oracle)",
+                                "harness/translate_resample.py (ast extraction of the coverage tests, the off-cycle window, the "
+                                "granularity tables; fail-closed)",
                                 "pandas semantics re-specified in Model/Resample.v; tz database"]
-    run.check_proofs("Properties/C08.v", ["Proofs/ResampleProofs.v"])
+    # step 0: translator (constants, comparison operators, granularity tables read off the source with ast)
+    gen = None
+    try:
+        import translate_resample
+        gen = translate_resample.generate(run, which=("resample",))
+        run.cov["translated"] = {"downsample": str(gen["downsample"]), "window": str(gen["window"]),
+                                 "granularity": str(gen["granularity"])}
+    except Exception as e:  # noqa  - fail closed: a source the translator no longer recognises is a broken tie
+        run.proof_ok = False
+        run.proof_log += "translator failed: %s: %s" % (type(e).__name__, e)
+        run.log("TRANSLATOR FAILED: %s: %s" % (type(e).__name__, e))
+    run.check_proofs("Properties/C08.v", ["Proofs/ResampleProofs.v", "Proofs/ResampleGenProofs.v"],
+                     generated=["Generated/ResampleGen.v"])
     run.log("theorems re-checked: %d/%d" % (run.cov["discharged"], run.cov["obligations"]))
     run.ensure_models(["Model/ResampleRun.v", "Model/CasesLib.v"])
     run.log("models built")
@@ -1457,6 +1471,10 @@ def main():
     FLAGS["cal"] = flags["cal"]           # inherited by the forked workers
     run.cov["model_variant"] = flags
     run.log("probe: %s" % {"cal": flags["cal"]})
+    if gen is not None and bool(gen["window"]["wall_clock"]) != bool(flags["cal"]):
+        # the translator (what the source says) and the probe (what the code does) must name the same variant
+        run.corr_failures.append({"stream": "variant", "case": {"probe": flags, "translated_wall_clock": gen["window"]["wall_clock"]},
+                                  "impl": "probe", "model": "Generated/ResampleGen.v gen_day_count_wall_clock"})
     nproc = int(os.environ.get("VERIF_PROCS", "14"))
     if len(jobs) == 1 or nproc <= 1:
         results = map(work, jobs)
